@@ -77,6 +77,7 @@ struct Cli
     long max_states = 2000000;
     bool verbose = false;
     bool terminal = true;
+    int fail_at = 0;  // --replay: allocation (counted within the last operation) that fails
     int faults = 0;  // 0 none, 1 = one injected failure per operation, 2 = follow-ups with a second failure
     std::set<std::string> prune_tags;  // context tags of known findings: transitions carrying one are not expanded
 };
@@ -155,6 +156,7 @@ struct Rec
     std::string crash;
     std::string tag;
     unsigned checks = 0;
+    int fail_at = 0;
 };
 
 static std::string sanitize(std::string s)
@@ -349,6 +351,7 @@ struct Found
 {
     std::string props, monitor, discr, msg, history, op;
     long count = 1;
+    int fail_at = 0;
 };
 
 static std::string json_escape(const std::string& s)
@@ -390,14 +393,28 @@ static int replay_main(const Cli& cli)
     Eng e;
     e.prm = cli.prm;
     int bad = 0;
+    bool in_fault = false;
     for (size_t i = 0; i < h.size(); ++i)
     {
         env::viols().clear();
         auto pre = e.snapshot(h[i].k == O_RS);
         e.keep_iterators();
+        // a recorded allocation failure is injected into the last operation of the history
+        const bool inject = cli.fail_at > 0 && i + 1 == h.size();
+        if (inject) env::L().fail_at = cli.fail_at;
+        env::L().faults_thrown = 0;
         bool ok = e.apply(h[i]);
-        e.transition_monitors(pre, h[i]);
-        e.inspect();
+        env::L().fail_at = 0;
+        in_fault = inject;
+        if (inject && !ok)
+            e.after_fault_monitors();
+        else if (inject && env::L().faults_thrown > 0)
+            env::report("C17", "faults", "exception-swallowed", "an allocation failure did not propagate to the caller");
+        else
+        {
+            e.transition_monitors(pre, h[i]);
+            e.inspect();
+        }
         std::printf("step %zu %s %s canon=%s\n", i, op_str(h[i]).c_str(), ok ? "" : "(bad_alloc)", e.canon().c_str());
         for (int t = 0; t < 2; ++t)
             if (e.m[t].present)
@@ -410,7 +427,7 @@ static int replay_main(const Cli& cli)
         for (auto& v : env::viols())
         {
             bool r = false;
-            for (auto& p : cli.prm.active) r = r || relevant(p, v.props, e.ctx(), false);
+            for (auto& p : cli.prm.active) r = r || relevant(p, v.props, e.ctx(), in_fault);
             std::printf("   %s [%s] %s|%s: %s\n", r ? "VIOLATION" : "(other)", v.props.c_str(), v.monitor.c_str(),
                         v.discr.c_str(), v.msg.c_str());
             bad += r;
@@ -422,7 +439,7 @@ static int replay_main(const Cli& cli)
     for (auto& v : env::viols())
     {
         bool r = false;
-        for (auto& p : cli.prm.active) r = r || relevant(p, v.props, e.ctx(), false);
+        for (auto& p : cli.prm.active) r = r || relevant(p, v.props, e.ctx(), in_fault);
         std::printf("   terminal %s [%s] %s|%s: %s\n", r ? "VIOLATION" : "(other)", v.props.c_str(), v.monitor.c_str(),
                     v.discr.c_str(), v.msg.c_str());
         bad += r;
@@ -454,6 +471,7 @@ int main(int argc, char** argv)
         else if (a == "--out") cli.out = next();
         else if (a == "--tmpdir") cli.tmpdir = next();
         else if (a == "--replay") cli.replay = next();
+        else if (a == "--fail-at") cli.fail_at = std::atoi(next().c_str());
         else if (a == "--max-states") cli.max_states = std::atol(next().c_str());
         else if (a == "--no-terminal") cli.terminal = false;
         else if (a == "--faults") cli.faults = std::atoi(next().c_str());
@@ -684,6 +702,7 @@ int main(int argc, char** argv)
                     open_rec->obs = f[4];
                     open_rec->xd = std::atoi(f[5].c_str());
                     open_rec->foreign = static_cast<unsigned>(std::atoi(f[6].c_str()));
+                    if (f.size() > 7) open_rec->fail_at = std::atoi(f[7].c_str());
                     if (f.size() > 7 && f[7] != "0") open_rec->verdict = open_rec->verdict == "OK" ? "FAULT-OK" : "FAULT-" + open_rec->verdict;
                     if (f.size() > 9 && f[9] != "-") open_rec->tag = f[9];
                 }
@@ -776,7 +795,7 @@ int main(int argc, char** argv)
                 History h = history_of(r.state);
                 std::string hs = history_str(h);
                 if (r.op != "<destroy-all>") hs += (hs.empty() ? "" : ";") + r.op;
-                found[key] = Found{v.props, v.monitor, v.discr, v.msg, hs, opname, 1};
+                found[key] = Found{v.props, v.monitor, v.discr, v.msg, hs, opname, 1, r.fail_at};
                 (void)o;
             };
             if (r.verdict == "TERMINAL")
@@ -883,7 +902,7 @@ int main(int argc, char** argv)
         const Found& f = kv.second;
         js << (first ? "\n" : ",\n") << "  {\"props\": \"" << f.props << "\", \"monitor\": \"" << f.monitor << "\", \"discr\": \""
            << json_escape(f.discr) << "\", \"op\": \"" << f.op << "\", \"msg\": \"" << json_escape(f.msg)
-           << "\", \"history\": \"" << json_escape(f.history) << "\", \"count\": " << f.count << "}";
+           << "\", \"history\": \"" << json_escape(f.history) << "\", \"fail_at\": " << f.fail_at << ", \"count\": " << f.count << "}";
         first = false;
     }
     js << "\n ]\n}\n";
